@@ -968,6 +968,24 @@ func (e *eenv) checkRoots(b *types.Block, inMem *types.Receipts, bloom []byte, o
 			return false
 		}
 	}
+	// the return value is committed for every execution that did not fail, whatever its status
+	// (SUCCESS, CREATED, RECREATED): same receipt list, only the Ret of one receipt differs
+	for _, status := range []string{"SUCCESS", "CREATED", "RECREATED"} {
+		i := r.Intn(n)
+		var roots [2][]byte
+		for k, ret := range []string{`"ret-one"`, `"ret-two"`} {
+			rs := mk()
+			rc := rs.Get()[i]
+			rc.Status = status
+			rc.Ret = ret
+			roots[k] = rs.MerkleRoot()
+		}
+		x.Count("mut.receipt-ret-by-status", 1)
+		if bytes.Equal(roots[0], roots[1]) {
+			x.Fail("C19", "receipt-field-not-bound-by-root", fmt.Sprintf("Ret-%s-v2=%v", status, v2), fmt.Sprintf("block %d (receipt format v2=%v): two receipt lists that differ only in the return value of a %s receipt have the same receipts root", b.BlockNo(), v2, status), e.step)
+			return false
+		}
+	}
 	// receipt list edits
 	for _, op := range []string{"drop", "dup-tail", "swap"} {
 		rs := mk()
